@@ -588,19 +588,18 @@ def run_instance(inst, tier='quick', seed=0, replay_dir=None, prefix=None, first
             qcore, _ = solve.build_query(c, goal, hints=hints, core=True)
             if len(qcore) == len(q):
                 qcore = None
-        r = solve.check_sat(q, timeout_s=timeout, model_vars=mv, core=qcore)
+        # stage 1: directed slice, short budget, z3 only.  stage 2: full connected component (or the same query when the
+        # slice is already complete) with the whole budget and all back ends.
+        r = solve.check_sat(q, timeout_s=min(timeout, 4.0), model_vars=mv, core=qcore, use_cvc5=False, tactics=(None,))
         rep['solver_time'] += r.time
         if r.status != 'unsat':
-            # the directed slice drops hypotheses over derived variables: retry with the full connected component
             q2, rel2 = solve.build_query(c, goal, hyps=hyps, hints=hints, path_len=path_len, full=True)
-            if len(q2) != len(q):
+            if len(q2) == len(q) and r.status == 'sat':
+                pass            # complete query, counter-model found
+            else:
                 r2 = solve.check_sat(q2, timeout_s=timeout, model_vars=mv)
                 rep['solver_time'] += r2.time
-                if r2.status != 'unknown' or r.status == 'unknown':
-                    r, q, rel = r2, q2, rel2
-                elif r.status == 'sat':
-                    # weaker query satisfiable, full query undecided: undecided
-                    r, q, rel = r2, q2, rel2
+                r, q, rel = r2, q2, rel2
         rep['backends'][r.backend] = rep['backends'].get(r.backend, 0) + 1
         status = {'unsat': 'discharged', 'sat': 'failed', 'unknown': 'undecided'}[r.status]
         seen_q[sig] = status
